@@ -21,6 +21,8 @@ type Case struct {
 	Order []int       `json:"order,omitempty"`
 	// StoreUses: the option that keeps the uses statements on the entries is set (the trees are the same)
 	StoreUses bool `json:"store_uses,omitempty"`
+	// Fetch: these sources are not handed over; they wait in a search-path directory and are fetched by Process
+	Fetch []string `json:"fetch,omitempty"`
 	// Late: a late problem was planted (augment collision, inapplicable
 	// deviation): the set must not process cleanly.
 	Late string `json:"late,omitempty"`
@@ -156,8 +158,11 @@ func check(c Case) (o ev.Outcome) {
 		return
 	}
 	srcs := schema.Sources(c.Set, c.Order)
+	if len(c.Fetch) > 0 {
+		o.Class("one-module-fetched-from-search-path")
+	}
 	var obs *schema.Observed
-	if !ev.Guard(&o, "load+process", func() { obs = schema.Load(srcs, func(ms *yang.Modules) { ms.ParseOptions.StoreUses = c.StoreUses }) }) {
+	if !ev.Guard(&o, "load+process", func() { obs = schema.LoadFetched(srcs, c.Fetch, func(ms *yang.Modules) { ms.ParseOptions.StoreUses = c.StoreUses }) }) {
 		// crashes belong to C01; keep the signature distinct
 		for i := range o.Violations {
 			o.Violations[i].Sig = "C04/" + o.Violations[i].Sig
@@ -393,6 +398,7 @@ func gen(t *rapid.T) Case {
 		c.Order = schema.Order(t, len(set.Modules))
 	}
 	c.StoreUses = rapid.IntRange(0, 3).Draw(t, "store-uses") == 0
+	c.Fetch = schema.PlanFetch(t, set)
 	return c
 }
 
